@@ -178,10 +178,18 @@ def measure_variants():
                 lambda r: r.shape == (2,))
     x = odl.uniform_discr(0, 1, 3).one()
     boolouter = works(lambda: np.less.outer(x, x), lambda r: r.shape == (3, 3))
-    return {'grow': grow, 'negaxis': neg, 'boolouter': boolouter}
+    arrdt = works(lambda: np.asarray((odl.rn(2) ** 2).one(), dtype=float), lambda r: r.shape == (2, 2))
+    return {'grow': grow, 'negaxis': neg, 'boolouter': boolouter, 'arrdt': arrdt}
 
 
 VARIANTS = None
+
+
+def measure_variants_cached():
+    global VARIANTS
+    if VARIANTS is None:
+        VARIANTS = measure_variants()
+    return VARIANTS
 
 
 def variant_term():
@@ -975,6 +983,107 @@ def legacy_cases(rng, tier):
     return cs
 
 
+# ---- binary legacy ufuncs on nested power spaces with second operands from everywhere
+def arg2_term(x2):
+    import odl
+    if isinstance(x2, (int, float)):
+        return '(A2Scal %s)' % C.q(x2)
+    if hasattr(x2, 'space'):
+        return '(A2Tree %s)' % tree_term(x2)
+    a = np.asarray(x2)
+    return '(A2Arr %s %s)' % (nats(a.shape), C.qs(data_list(a)))
+
+
+def legacy2_cases(rng, tier):
+    import odl
+    cs = C.CaseSet('legacy2', ['C17.Arr', 'C17.Model', 'C17.Legacy', 'C17.Corr'], 'check_legacy2', 'l2case')
+    reps = 1 if tier == 'quick' else 4
+    ops = ['add', 'subtract', 'multiply', 'maximum', 'true_divide', 'less']
+    for _ in range(reps):
+        for dtype in ('float64', 'int64'):
+            for dims in ((2,), (2, 2), (3, 2), (2, 3), (2, 2, 2), (3, 2, 2), (2, 3, 2), (1, 2), (2, 1)):
+                for name in ops:
+                    n = rng.choice([1, 2, 3])
+                    leaf_sp = odl.tensor_space(n, dtype=dtype)
+                    spaces = [leaf_sp]          # spaces[j] = j levels above the leaf
+                    for k in reversed(dims):
+                        spaces.append(spaces[-1] ** k)
+                    S = spaces[-1]
+                    full = tuple(dims) + (n,)
+                    lo = 1 if name == 'true_divide' else -3
+                    kinds = ['same', 'inner1', 'inner2', 'leaf', 'scalar', 'arr-leaf', 'arr-one', 'arr-inner1',
+                             'arr-full', 'list-leaf', 'list-inner1', 'other']
+                    for kind in kinds:
+                        for with_out in (False, True):
+                            X = S.element(ivals(rng, full, -3, 4, dtype=np.dtype(dtype)))
+                            if kind == 'same':
+                                x2 = S.element(ivals(rng, full, lo, 3, dtype=np.dtype(dtype)))
+                            elif kind in ('inner1', 'inner2'):
+                                lev = len(dims) - (1 if kind == 'inner1' else 2)
+                                if lev < 1:
+                                    continue
+                                sp = spaces[lev]
+                                x2 = sp.element(ivals(rng, full[len(dims) - lev:], lo, 3, dtype=np.dtype(dtype)))
+                            elif kind == 'leaf':
+                                x2 = leaf_sp.element(ivals(rng, (n,), lo, 3, dtype=np.dtype(dtype)))
+                            elif kind == 'scalar':
+                                v = rng.randint(1, 3)
+                                x2 = v if np.dtype(dtype).kind == 'i' else float(v)
+                            elif kind == 'arr-leaf':
+                                x2 = ivals(rng, (n,), lo, 3, dtype=np.dtype(dtype))
+                            elif kind == 'arr-one':
+                                x2 = ivals(rng, (1,), 1, 3, dtype=np.dtype(dtype))
+                            elif kind == 'arr-inner1':
+                                x2 = ivals(rng, full[-2:], lo, 3, dtype=np.dtype(dtype))
+                            elif kind == 'arr-full':
+                                x2 = ivals(rng, full, lo, 3, dtype=np.dtype(dtype))
+                            elif kind == 'list-leaf':
+                                x2 = ivals(rng, (n,), lo, 3, dtype=np.dtype(dtype)).tolist()
+                            elif kind == 'list-inner1':
+                                x2 = ivals(rng, full[-2:], lo, 3, dtype=np.dtype(dtype)).tolist()
+                            else:
+                                # an element of ANOTHER power space: m parts instead of k at the inner level
+                                if len(dims) < 2:
+                                    continue
+                                sp = leaf_sp ** dims[0]
+                                x2 = sp.element(ivals(rng, (dims[0], n), lo, 3, dtype=np.dtype(dtype)))
+                            uf = getattr(np, name)
+                            try:
+                                x2t = arg2_term(x2)
+                                A = np.asarray(X)
+                                B = np.asarray(x2)
+                                rd = uf(np.ones(1, dtype=dtype), np.ones(1, dtype=np.asarray(B).dtype)).dtype
+                                try:
+                                    with np.errstate(all='ignore'):
+                                        ref = uf(A, B)
+                                    ref_t = ('(Some %s)' % C.qs(data_list(ref))) if (
+                                        ref.shape == A.shape and ref.dtype == A.dtype) else 'None'
+                                except Skip:
+                                    raise
+                                except Exception:
+                                    ref_t = 'None'
+                                kw = {'out': S.element(np.full(full, 9, dtype=dtype))} if with_out else {}
+                                try:
+                                    with np.errstate(all='ignore'):
+                                        r = getattr(X.ufuncs, name)(x2, **kw)
+                                    if with_out and r is not kw['out']:
+                                        raise Skip('out identity')      # left to the probes
+                                    obs, summ = '(TOk %s)' % tree_term(r), 'ok'
+                                except Skip:
+                                    raise
+                                except Exception as e:   # noqa
+                                    obs, summ = '(TErr %s)' % classify(e), classify(e)
+                                t = '(mkL2Case %s %s %s %s %s %s %s %s)' % (
+                                    C.b(measure_variants_cached()['arrdt']), BOPS[name], C.lst(['(%s, %s)' % (dt_term(dtype), dt_term(rd))]), C.b(with_out),
+                                    tree_term(X), x2t, obs, ref_t)
+                            except Skip:
+                                continue
+                            cs.add(t, {'legacy2': name, 'dims': list(dims), 'n': n, 'dtype': dtype, 'x2': kind,
+                                       'out': with_out, 'outcome': summ},
+                                   (name, dims, dtype, kind, with_out, summ))
+    return cs
+
+
 # ---- power-space elements through the NumPy API (__array__ / __array_wrap__)
 def pspace_cases(rng, tier):
     import odl
@@ -1110,7 +1219,8 @@ def correspondence(rng, tier):
     vs = C.CaseSet('variant', ['C17.Model', 'C17.GenTie'], '(fun b : bool => Bool.eqb b gen_grow)', 'bool')
     vs.add(C.b(measure_variants()['grow']), {'variant': 'v_grow measured on np.add(rn(3).one(), np.ones((2, 3)))'},
            'v_grow')
-    return [cs, legacy_cases(rng, tier), pspace_cases(rng, tier), wrap_cases(rng, tier), vs]
+    return [cs, legacy_cases(rng, tier), legacy2_cases(rng, tier), pspace_cases(rng, tier), wrap_cases(rng, tier),
+            vs]
 
 
 # ------------------------------------------------------------------ probes
@@ -1494,6 +1604,7 @@ def probes(rng, tier):
     for spec in gen_probe_specs(rng, tier):
         out.append(mk_probe(spec))
     out.extend(structural_probes(rng, tier))
+    out.extend(legacy2_probes(rng, tier))
     return out
 
 
@@ -1621,6 +1732,129 @@ def mk_legacy_probe(spec):
         spec['ufunc'], spec['space']['kind'], {k: v for k, v in spec.items() if k in ('kwargs', 'out')})
     return C.Probe(bool(ok), legacy_key(spec, cat) if not ok else 'ok', what, rp,
                    {'category': cat, 'observed': obs, 'expected': exp})
+
+
+def legacy2_eval(spec):
+    """X.ufuncs.<name>(x2[, out]) and np.<name>(X, x2) for X in a nested power space over rn(n) / tensor_space(n, int)
+    and x2 from the same space, an inner power space, the innermost tensor space, a scalar, an ndarray or a nested
+    list, against NumPy on the stacked arrays"""
+    import odl
+    dims, n, dtype = tuple(spec['dims']), spec['n'], spec['dtype']
+    leaf_sp = odl.tensor_space(n, dtype=dtype)
+    spaces = [leaf_sp]
+    for k in reversed(dims):
+        spaces.append(spaces[-1] ** k)
+    S = spaces[-1]
+    full = dims + (n,)
+    X = S.element(np.array(spec['x'], dtype=dtype).reshape(full))
+    kind, data = spec['x2']
+    if kind == 'space':          # element of the power space `data[0]` levels above the leaf
+        lev, vals = data
+        x2 = spaces[lev].element(np.array(vals, dtype=dtype).reshape(full[len(dims) - lev:]))
+    elif kind == 'other':        # element of ANOTHER power space: tensor ** parts
+        parts, vals = data
+        x2 = (leaf_sp ** parts).element(np.array(vals, dtype=dtype).reshape((parts, n)))
+    elif kind == 'arr':
+        x2 = np.array(data, dtype=dtype)
+    else:                        # 'scal', 'list'
+        x2 = data
+    uf = getattr(np, spec['ufunc'])
+    A, B = np.asarray(X), np.asarray(x2)
+    with_out = bool(spec.get('out'))
+    try:
+        with np.errstate(all='ignore'):
+            ref = uf(A, B, out=np.full(full, 9, dtype=dtype)) if with_out else uf(A, B)
+    except Exception as e:      # noqa
+        ref, referr = None, e
+    if ref is not None and ref.shape != A.shape:
+        return True, 'grow', None, None          # result larger than X: covered by the *-broadcast-grow findings
+
+    def run(how):
+        out = S.element(np.full(full, 9, dtype=dtype)) if with_out else None
+        kw = {'out': out} if with_out else {}
+        with np.errstate(all='ignore'):
+            r = getattr(X.ufuncs, spec['ufunc'])(x2, **kw) if how == 'legacy' else uf(X, x2, **kw)
+        return r, out
+    hows = ['legacy'] + (['numpy'] if (hasattr(x2, 'space') and not with_out and spec.get('numpy_api')) else [])
+    for how in hows:
+        try:
+            r, out = run(how)
+        except Exception as e:      # noqa
+            if ref is None:
+                continue
+            return False, how + '-raises', '%s: %s' % (type(e).__name__, str(e)[:100]), 'NumPy on the arrays returns'
+        if ref is None:
+            return False, how + '-accepts', 'returned', 'NumPy raises ' + type(referr).__name__
+        if with_out and r is not out:
+            return False, how + '-out-identity', type(r).__name__, 'the given out'
+        if not isinstance(r, type(X)) or r.space.shape != S.shape:
+            return False, how + '-kind', type(r).__name__, 'element of the space of X'
+        ra = np.asarray(r)
+        if not _same(ra, ref):
+            return False, how + '-values', ra.tolist(), ref.tolist()
+        if ra.dtype != ref.dtype:
+            return False, how + '-dtype', str(ra.dtype), str(ref.dtype)
+    return True, '', None, None
+
+
+def legacy2_key(spec, cat):
+    kind = spec['x2'][0]
+    isint = np.dtype(spec['dtype']).kind in 'iu'
+    if cat == 'legacy-raises' and kind in ('arr', 'list') and np.ndim(spec['x2'][1]) >= 2:
+        return 'legacy-pspace-binary-array-operand'
+    if cat.endswith('-values') and isint:
+        return 'pspace-integer-space-truncates-float-results'
+    if cat.endswith('-dtype'):
+        return 'pspace-result-dtype-forced-to-space-dtype'
+    if cat == 'numpy-raises' and kind == 'space' and spec['x2'][1][0] == 0:
+        return 'pspace-array-dtype-argument'
+    return 'legacy2-%s-%s-%s' % (spec['ufunc'], kind, cat)
+
+
+def legacy2_probes(rng, tier):
+    out = []
+    reps = 1 if tier == 'quick' else 4
+    for _ in range(reps):
+        for dtype in ('float64', 'int64'):
+            for dims in ((2,), (2, 2), (3, 2), (2, 3), (2, 2, 2), (3, 2, 2), (2, 2, 3), (3, 3)):
+                for name in ('add', 'subtract', 'multiply', 'maximum', 'true_divide', 'less', 'arctan2', 'hypot',
+                             'power', 'copysign', 'logical_and', 'fmin'):
+                    if np.dtype(dtype).kind == 'i' and name in ('arctan2', 'hypot', 'copysign'):
+                        continue
+                    n = rng.choice([1, 2, 3])
+                    full = tuple(dims) + (n,)
+                    pos = name in ('true_divide', 'power')
+
+                    def vals(shape, lo=-3):
+                        return [rng.randint(1 if pos else lo, 3) for _ in range(int(np.prod(shape)))]
+                    cands = [('space', (len(dims), vals(full)))]
+                    for lev in range(len(dims) - 1, -1, -1):
+                        cands.append(('space', (lev, vals(full[len(dims) - lev:]))))
+                    cands += [('scal', 2), ('arr', vals((n,))), ('arr', [2]),
+                              ('arr', np.array(vals(full[-2:])).reshape(full[-2:]).tolist()),
+                              ('list', vals((n,))),
+                              ('list', np.array(vals(full[-2:])).reshape(full[-2:]).tolist())]
+                    if len(dims) >= 2:
+                        cands.append(('other', (dims[0], vals((dims[0], n)))))
+                    for x2 in cands:
+                        for with_out in (False, True):
+                            if tier == 'quick' and rng.random() < 0.5:
+                                continue
+                            spec = {'dims': list(dims), 'n': n, 'dtype': dtype, 'ufunc': name, 'x': vals(full, -3),
+                                    'x2': x2, 'out': with_out, 'numpy_api': True}
+                            try:
+                                ok, cat, obs, exp = legacy2_eval(spec)
+                            except Exception as e:      # noqa
+                                ok, cat, obs, exp = False, 'probe-crash', repr(e), None
+                            rp = ("import sys\nsys.path.insert(0, %r)\nfrom harness.c17 import legacy2_eval\nspec = %r\n"
+                                  "ok, category, observed, expected = legacy2_eval(spec)\n" % (C.VERIF, spec))
+                            out.append(C.Probe(bool(ok), legacy2_key(spec, cat) if not ok else 'ok',
+                                               'X.ufuncs.%s(x2%s) / np.%s(X, x2), X in a power space of dims %s over '
+                                               'tensor_space(%d, %s), x2 = %s: NumPy on the stacked arrays'
+                                               % (name, ', out=...' if with_out else '', name, dims, n, dtype, x2[0] if
+                                                  x2[0] != 'space' else 'element of the space %d level(s) above the leaf'
+                                                  % x2[1][0]), rp, {'category': cat, 'observed': obs, 'expected': exp}))
+    return out
 
 
 def sharing_eval(spec):
